@@ -4,11 +4,13 @@ import (
 	"fmt"
 	"strings"
 	"sync"
+	"sync/atomic"
 	"time"
 
 	bigbuff "github.com/joeycumines/go-bigbuff"
 
 	"verifharness/internal/evlog"
+	"verifharness/internal/gate"
 	"verifharness/internal/hk"
 	"verifharness/internal/rng"
 )
@@ -23,6 +25,7 @@ import (
 type exclCall struct {
 	key, style, behave, wait, val int
 	gate                          chan struct{}
+	sniper                        bool // the call is made the moment a runner of its key reaches its hand-over (clear / returned hooks)
 }
 
 const (
@@ -47,10 +50,17 @@ const (
 func execExclusiveT3(t *trace, script []string) {
 	for _, line := range script {
 		f := strings.Fields(line)
-		if len(f) != 4 || f[0] != "run" {
+		// "handover <variant> <seed>": the forced schedule around the end of an execution (see below)
+		handover := len(f) == 3 && f[0] == "handover"
+		if !handover && (len(f) != 4 || f[0] != "run") {
 			continue
 		}
-		nkeys, ncalls, seed := atoi(f[1]), atoi(f[2]), atoi(f[3])
+		var nkeys, ncalls, seed, variant int
+		if handover {
+			nkeys, ncalls, variant, seed = 1, 3, atoi(f[1]), atoi(f[2])
+		} else {
+			nkeys, ncalls, seed = atoi(f[1]), atoi(f[2]), atoi(f[3])
+		}
 		t.Line(line, "ok")
 		r := rng.New(uint64(seed), "exclusive-run")
 		calls := make([]*exclCall, ncalls)
@@ -69,6 +79,21 @@ func execExclusiveT3(t *trace, script []string) {
 			} else {
 				c.behave = r.Pick(3, 2)
 			}
+			if ncalls >= 3 && r.Chance(45) {
+				c.sniper = true
+			}
+			if handover {
+				// call 0 runs and finishes at once; calls 1 and 2 have work that blocks until released
+				c.sniper, c.wait, c.key = false, 0, 0
+				if i == 0 {
+					c.style, c.behave = []int{exStyleOptsStart, exStyleOpts, exStyleStart, exStyleCall}[variant%4], exResolveReturn
+				} else {
+					c.style, c.behave = exStyleOpts, exBlockThenResolve
+					if variant&4 != 0 && i == 1 {
+						c.wait = 1
+					}
+				}
+			}
 			calls[i] = c
 			start := 0
 			if c.style == exStyleStart || c.style == exStyleStartAfter || c.style == exStyleOptsStart {
@@ -83,6 +108,18 @@ func execExclusiveT3(t *trace, script []string) {
 		threadOf := map[int64]int{} // goroutine id -> thread
 		itemID := map[any]int{}
 		finished := make([]bool, ncalls) // the goroutine side of the call has ended
+		trig := make([]chan struct{}, nkeys)
+		for k := range trig {
+			trig[k] = make(chan struct{}, ncalls)
+		}
+		endgame := make(chan struct{})
+		active := make([]atomic.Int32, nkeys) // work functions currently executing, per key (C09 monitor)
+		enter := func(k int) {
+			if n := active[k].Add(1); n > 1 {
+				log.Add("overlap key=%d n=%d", k, n)
+			}
+		}
+		leave := func(k int) { active[k].Add(-1) }
 		tid := func(g int64) int {
 			pmu.Lock()
 			id, ok := threadOf[g]
@@ -124,6 +161,14 @@ func execExclusiveT3(t *trace, script []string) {
 			default:
 				log.Add("%s %d item=%d", name, th, item(ev.Obj))
 			}
+			if th >= 0 && (name == "clear" || name == "returned") {
+				for j := 0; j < 2; j++ { // two snipers per hand-over: one into the window, one right behind it
+					select {
+					case trig[calls[th].key] <- struct{}{}:
+					default:
+					}
+				}
+			}
 			if th >= 0 && (name == "escape" || name == "deliver" || name == "clear") {
 				pmu.Lock()
 				finished[th] = true
@@ -134,6 +179,8 @@ func execExclusiveT3(t *trace, script []string) {
 		mkWork := func(i int) bigbuff.WorkFunc {
 			c := calls[i]
 			return func(resolve func(interface{}, error)) {
+				enter(c.key)
+				defer leave(c.key)
 				by := tid(hk.Gid())
 				log.Add("fn %d by=%d", i, by)
 				res := func(v int) {
@@ -161,6 +208,8 @@ func execExclusiveT3(t *trace, script []string) {
 		mkValue := func(i int) func() (interface{}, error) {
 			c := calls[i]
 			return func() (interface{}, error) {
+				enter(c.key)
+				defer leave(c.key)
 				by := tid(hk.Gid())
 				log.Add("fn %d by=%d", i, by)
 				if c.behave == exBlockThenResolve {
@@ -200,6 +249,12 @@ func execExclusiveT3(t *trace, script []string) {
 				threadOf[g] = i
 				pmu.Unlock()
 				close(ready)
+				if c.sniper {
+					select {
+					case <-trig[c.key]:
+					case <-endgame:
+					}
+				}
 				wait := time.Duration(c.wait) * time.Millisecond
 				switch c.style {
 				case exStyleCall:
@@ -237,6 +292,19 @@ func execExclusiveT3(t *trace, script []string) {
 
 		// the controller: spawn the calls and release gates in a random interleaving
 		ctl := r.Fork()
+		// in half of the runs the map mutex is kept contended (it is only ever held briefly, so this must be harmless;
+		// it stretches every window that ends with an acquisition of that mutex)
+		var spin atomic.Bool
+		if ctl.Chance(50) {
+			spin.Store(true)
+			for j := 0; j < 2; j++ {
+				go func() {
+					for spin.Load() {
+						bigbuff.VerifExclusiveKeys(&e)
+					}
+				}()
+			}
+		}
 		released := make([]bool, ncalls)
 		release := func(i int) {
 			if !released[i] {
@@ -246,6 +314,28 @@ func execExclusiveT3(t *trace, script []string) {
 		}
 		holdKey0 := nkeys > 1 && ctl.Chance(60)
 		next := 0
+		if handover {
+			// Forced schedule (T4).  Call 0 is held at its `clear` hook (inside the key's mutex) while call 1 is made and
+			// blocks on that mutex; call 0 is released and finishes; call 1 is held at its `run` hook (it is the runner,
+			// successor not yet installed) while call 2 is made; then call 1 goes on.  Calls 1 and 2 must never execute
+			// their (blocking) work functions at the same time, and call 2 must be answered by its own execution.
+			by := func(th int) func(hk.Event) bool { return func(e hk.Event) bool { return tid(e.G) == th } }
+			g0 := gate.Arm("excl.clear", by(0))
+			g1 := gate.Arm("excl.run", by(1))
+			spawn(0)
+			held0 := g0.Wait(gateTimeout)
+			spawn(1)
+			time.Sleep(2 * time.Millisecond) // call 1 reaches the key's mutex
+			g0.Release()
+			held1 := g1.Wait(gateTimeout)
+			time.Sleep(2 * time.Millisecond) // call 0's goroutine finishes whatever it does after unlocking
+			spawn(2)
+			time.Sleep(3 * time.Millisecond) // call 2 attaches (and, if the key was split, starts executing)
+			g1.Release()
+			time.Sleep(3 * time.Millisecond) // call 1 installs its successor and starts executing
+			log.Add("handover held0=%v held1=%v", held0, held1)
+			next = ncalls
+		}
 		for next < ncalls {
 			switch ctl.Pick(6, 3, 3) {
 			case 0:
@@ -272,6 +362,14 @@ func execExclusiveT3(t *trace, script []string) {
 				}
 			}
 			for k := 1; k < nkeys; k++ {
+				for j := 0; j < ncalls; j++ { // waiting snipers of the other keys go now
+					select {
+					case trig[k] <- struct{}{}:
+					default:
+					}
+				}
+			}
+			for k := 1; k < nkeys; k++ {
 				if !waitTimeout(&perKey[k], stepTimeout) {
 					stuck = fmt.Sprintf("calls of key %d did not finish while key 0 was busy", k)
 				}
@@ -286,6 +384,8 @@ func execExclusiveT3(t *trace, script []string) {
 				perturb(ctl)
 			}
 		}
+		time.Sleep(time.Duration(ctl.Intn(300)) * time.Microsecond)
+		close(endgame)
 		if stuck == "" && !waitTimeout(&callers, stepTimeout) {
 			stuck = "callers did not return"
 		}
@@ -306,6 +406,7 @@ func execExclusiveT3(t *trace, script []string) {
 			}
 			time.Sleep(100 * time.Microsecond)
 		}
+		spin.Store(false)
 		// the runner's goroutine releases the item mutex after its last hook; let it drain
 		time.Sleep(200 * time.Microsecond)
 		keys := bigbuff.VerifExclusiveKeys(&e)
@@ -322,6 +423,9 @@ func execExclusiveT3(t *trace, script []string) {
 }
 
 func genExclusiveT3(r *rng.R, tier string, i int) []string {
+	if i < 8 {
+		return []string{fmt.Sprintf("handover %d %d", i, r.Intn(1<<30))}
+	}
 	keys := 1 + r.Intn(3)
 	calls := 2 + r.Intn(9)
 	if tier == "thorough" && r.Chance(30) {
